@@ -17,6 +17,18 @@
 (*                                                                         *)
 (* Handles: 0 = wake-up of the management task, u > 0 = first step of the  *)
 (* initialize-upload task of upload u.                                     *)
+(*                                                                         *)
+(* Environment steps (peers, server messages, the application changing     *)
+(* settings or calling abort/pause/queue) are atomic and may happen        *)
+(* between any two handles; finite budgets bound them in the exhaustive    *)
+(* configurations (Unbounded = 99 switches a budget off).                  *)
+(*                                                                         *)
+(* Where the code deviates from C05 the deviation is a CONSTANT switch:    *)
+(* SlotsChangeNotifies = FALSE is the code (assigning the limit requests   *)
+(* no cycle): EventuallyStarted fails (MC_live_code.cfg), finding          *)
+(* C05:set-upload-slots:raised-limit-not-applied.  TRUE is the repaired    *)
+(* design (MC_live.cfg).  The other switches only serve to show that each  *)
+(* property has teeth (MC_teeth_*.cfg).                                    *)
 (***************************************************************************)
 EXTENDS Naturals, Sequences, FiniteSets, TLC
 
@@ -228,8 +240,6 @@ TaskFirstStep(u) ==
          ELSE /\ NoReq(r) /\ grantLim' = GrantLimAfter(r) /\ UNCHANGED st
   /\ UNCHANGED <<attrs, order>>
 
-RunHead == MgmtStep \/ \E u \in Uploads : TaskFirstStep(u)
-
 \* --- next-state relation: one named disjunct per action, so that TLC's labels carry the arguments ------
 budgets == <<slotLeft, attrLeft, lifeLeft>>
 Spend(left) == IF left = Unbounded THEN left' = left ELSE left > 0 /\ left' = left - 1
@@ -265,7 +275,7 @@ Next ==
   \/ \E o \in Users : EFriend(o) \/ EPriv(o) \/ \E s \in Statuses : EStatus(o, s)
 
 Spec == Init /\ [][Next]_vars
-\* the event loop keeps running; the environment owes nothing
+\* the event loop keeps running (ready handles are run, due timers fire); the environment owes nothing
 FairSpec == Spec /\ WF_vars(LoopStep) /\ WF_vars(TimerStep)
 
 ----------------------------------------------------------------------------
